@@ -71,27 +71,111 @@ theorem sameAs_stable (w0 : World) : RowStable (SameAs w0) := by
   exact ⟨h.1, by simp only; rw [hp]; exact h.2⟩
 
 /-- values returned by a program satisfy `Q` -/
-def Post {α : Type} (Q : α → Prop) (m : M α) : Prop := ∀ w w' a, m w = (w', .ok a) → Q a
+structure Post {α : Type} (Q : α → Prop) (m : M α) : Prop where
+  run : ∀ w w' a, m w = (w', .ok a) → Q a
 
 theorem Post.pure {α} {Q : α → Prop} (a : α) (h : Q a) : Post Q (Pure.pure a : M α) := by
+  constructor
   intro w w' b hb
   have : (Pure.pure a : M α) w = (w, .ok a) := rfl
   rw [this] at hb
   injection hb with _ h2; injection h2 with h2; subst h2; exact h
 
 theorem Post.fail {α} {Q : α → Prop} (e : Err) : Post Q (M.fail e : M α) := by
+  constructor
   intro w w' b hb
   have : (M.fail e : M α) w = (w, .error e) := rfl
   rw [this] at hb
   injection hb with _ h2; cases h2
 
 theorem Post.bind {α β} {Q : β → Prop} {g : M α} {k : α → M β} (hk : ∀ a, Post Q (k a)) : Post Q (g >>= k) := by
+  constructor
   intro w w' b hb
   have : (g >>= k) w = (match g w with | (w1, .ok a) => k a w1 | (w1, .error e) => (w1, .error e)) := rfl
   rw [this] at hb
   split at hb
-  · exact hk _ _ _ _ hb
+  · exact (hk _).run _ _ _ hb
   · injection hb with _ h2; cases h2
+
+/-- sequencing with a postcondition of the first part available to the second -/
+theorem Post.bind' {α β} {P : α → Prop} {Q : β → Prop} {g : M α} {k : α → M β} (hg : Post P g)
+    (hk : ∀ a, P a → Post Q (k a)) : Post Q (g >>= k) := by
+  constructor
+  intro w w' b hb
+  have : (g >>= k) w = (match g w with | (w1, .ok a) => k a w1 | (w1, .error e) => (w1, .error e)) := rfl
+  rw [this] at hb
+  split at hb
+  · rename_i w1 a hga
+    exact (hk a (hg.run w w1 a hga)).run _ _ _ hb
+  · injection hb with _ h2; cases h2
+
+theorem Post.ite {α} {Q : α → Prop} {c : Prop} [Decidable c] {a b : M α} (ha : Post Q a) (hb : Post Q b) :
+    Post Q (if c then a else b) := by
+  split <;> assumption
+
+theorem Post.wedge {α} {Q : α → Prop} (e : Err) : Post Q (M.wedge e : M α) := by
+  constructor
+  intro w w' b hb
+  have : (M.wedge e : M α) w = ({ w with stuck := true }, .error e) := rfl
+  rw [this] at hb
+  injection hb with _ h2; cases h2
+
+/-- one step towards a `Post Q m` goal -/
+syntax "post_step" : tactic
+macro_rules
+  | `(tactic| post_step) => `(tactic| first
+      | with_reducible exact Post.fail _
+      | with_reducible exact Post.wedge _
+      | with_reducible apply Post.ite
+      | (with_reducible apply Post.bind; intro _)
+      | split)
+
+/-- a handle that was obtained read-only and has no write cache -/
+def HRO (h : Handle) : Prop := h.wbuf = none ∧ h.flags.write = false
+
+@[simp] theorem HRO_reader (h : Handle) (r : Option (Bytes × Nat)) : HRO { h with reader := r } ↔ HRO h := Iff.rfl
+@[simp] theorem HRO_info (h : Handle) (i : Info) : HRO { h with info := i } ↔ HRO h := Iff.rfl
+
+/-- close `Post (fun r => HRO …) m` goals for the read-side handle methods -/
+syntax "hro_step" : tactic
+macro_rules
+  | `(tactic| hro_step) => `(tactic| first
+      | with_reducible exact Post.fail _
+      | with_reducible exact Post.wedge _
+      | (with_reducible apply Post.pure; first | assumption | (simp only [HRO_reader, HRO_info]; assumption) | (simp only [HRO] at *; simp_all))
+      | with_reducible apply Post.ite
+      | (with_reducible refine Post.bind' (P := HRO) ?_ ?_)
+      | intro _ _
+      | intro _
+      | split)
+
+theorem startReader_hro (f : FsCfg) (h : Handle) (hh : HRO h) : Post HRO (startReader f h) := by
+  unfold startReader
+  repeat (first | (with_reducible apply Post.bind; intro _) | hro_step)
+
+theorem hRead_hro (f : FsCfg) (h : Handle) (n : Nat) (hh : HRO h) : Post (fun r => HRO r.1) (hRead f h n) := by
+  unfold hRead
+  have hw := hh.1
+  simp only [hw]
+  repeat (first | with_reducible exact startReader_hro f _ (by assumption) | hro_step)
+
+theorem hSeekNoLock_hro (f : FsCfg) (h : Handle) (o wh : Int) (hh : HRO h) : Post (fun r => HRO r.1) (hSeekNoLock f h o wh) := by
+  unfold hSeekNoLock
+  have hw := hh.1
+  simp only [hw]
+  repeat (first | with_reducible exact startReader_hro f _ (by first | assumption | (simp only [HRO] at *; simp_all)) | hro_step)
+
+theorem hReadAt_hro (f : FsCfg) (h : Handle) (n : Nat) (o : Int) (hh : HRO h) : Post (fun r => HRO r.1) (hReadAt f h n o) := by
+  unfold hReadAt
+  repeat (first
+    | (refine Post.bind' (hSeekNoLock_hro f h o SEEK_SET hh) (fun r hr => ?_); exact hRead_hro f r.1 n hr)
+    | hro_step)
+
+theorem hStat_hro (h : Handle) (hh : HRO h) : Post (fun r => HRO r.1) (hStat h) := by
+  unfold hStat
+  have hw := hh.1
+  simp only [hw]
+  repeat hro_step
 
 /-- whatever `OpenFile` returns carries exactly the flags computed from the caller's flag word -/
 theorem openFile_flags (f : FsCfg) (env : Env) (n : Name) (flag : Nat) (perm : Int) :
